@@ -1,6 +1,7 @@
 import OomdModel.Fault
 import OomdProofs.CtxFault
 import OomdModel.Generated.Accessors
+import OomdModel.Generated.Risky
 
 /-!
 # C10 — a tick survives missing, empty, unreadable or vanishing files
@@ -223,6 +224,14 @@ that read no control file.  An accessor added to the code without a model row br
 theorem every_accessor_modelled :
     ∀ n ∈ OomdModel.Generated.cgroupContextAccessors,
       n ∈ notFileAccessors ∨ ∃ a ∈ Acc.all, a.cxxName = some n := by decide
+
+/-- **Every operation that can throw or is undefined on an unchecked input has been reviewed.**  The translator lists, on every
+run, each `.value()`, `.at(` and `std::sto*` in the code a tick executes (Oomd.cpp, OomdContext, CgroupContext, Fs.cpp, engine/,
+plugins/) and removes those recorded - with the guard that makes them safe in the fault domain - in `tools/risky_reviewed.json`.
+A new such operation, or one more copy of a reviewed line, breaks this obligation; the check then searches the fault space for
+an input that makes it fire (that is how a dereference like the one repaired in `unfixed_swap_excess_throws` is noticed even when
+no generated fault reaches it). -/
+theorem no_unreviewed_risky_operation : OomdModel.Generated.unreviewedRisky = [] := by decide
 
 /-- the table lists every accessor -/
 theorem acc_table_complete (a : Acc) : a ∈ Acc.all := by cases a <;> decide
